@@ -54,3 +54,38 @@ Example C05_example_register_and_move :
   | None => Raise KeyError
   end = Ok [128; 0; 0; 0; 0; 0; 0; 1; 0; 0; 0; 0; 0; 0; 0; 7; 0; 3; 2; 1; 0; 0; 0; 24].
 Proof. vm_compute. reflexivity. Qed.
+
+(* ---------------------------------------------------------------------------------------------------------------------
+   The builder of the PERSISTENT RESERVE OUT parameter lists, REGENERATED from the source (Gen/PyFuncs.v) and run under the
+   semantics of the small Python (Model/Py.v) — for every dictionary, every TransportID and any number of them. *)
+From Coq Require Import ZArith List.
+From PS Require Import Model.Py Proofs.PyBuilders Gen.PyFuncs.
+Import ListNotations.
+
+(* REGISTER AND MOVE: the 24-byte list the library's table encodes from the caller's values WITH TRANSPORTID PARAMETER DATA LENGTH set to
+   the length of the TransportID that follows, then exactly the TransportID the TransportID builder returned *)
+Theorem C05_py_register_and_move : forall (op tid : pv) (sa : Z) (data : list (string * pv)) (tidb hdr : bytes) f,
+  opcode_has op "REGISTER_AND_MOVE" sa ->
+  lookup "transport_id" data = Some tid -> truthy tid = true ->
+  call_fun all_tables py_program f MTI [tid] = Ok (PBytes tidb) ->
+  encode_pv (dict_set data "transportid_length" (PInt (Z.of_nat (length tidb)))) T_ram (zeros 24) = Ok hdr ->
+  call_fun all_tables py_program (S f) PROUT [op; PInt sa; PDict data] = Ok (PBytes (hdr ++ tidb)%list).
+Proof. exact prout_register_and_move_exact. Qed.
+
+(* REGISTER with SPEC_I_PT: bytes 24..27 hold the total length of the TransportIDs that follow; all of them follow, in order *)
+Theorem C05_py_register_spec_i_pt : forall (op : pv) (sam sar : Z) (data : list (string * pv)) (sp : pv) (ts : list pv) (bs : list bytes) (hdr : bytes) f,
+  opcode_has op "REGISTER_AND_MOVE" sam -> opcode_has op "REGISTER" sar -> sar <> sam ->
+  lookup "spec_i_pt" data = Some sp -> truthy sp = true -> lookup "transport_ids" data = Some (PList ts) ->
+  tids_built (call_with py_program (run all_tables py_program f)) ts bs ->
+  encode_pv data T_basic (zeros 28) = Ok hdr -> length hdr = 28%nat ->
+  call_fun all_tables py_program (S f) PROUT [op; PInt sar; PDict data]
+  = Ok (PBytes (firstn 24 hdr ++ int_to_ba (N.of_nat (length (concat bs))) 4 ++ concat bs)%list).
+Proof. exact prout_register_spec_i_pt_exact. Qed.
+
+(* every other service action: the plain 24-byte list *)
+Theorem C05_py_basic_list : forall (op : pv) (sa sam sar : Z) (data : list (string * pv)) (hdr : bytes) f,
+  opcode_has op "REGISTER_AND_MOVE" sam -> opcode_has op "REGISTER" sar ->
+  sa <> sam -> (sa <> sar \/ match lookup "spec_i_pt" data with Some v => truthy v = false | None => True end) ->
+  encode_pv data T_basic (zeros 24) = Ok hdr ->
+  call_fun all_tables py_program (S f) PROUT [op; PInt sa; PDict data] = Ok (PBytes hdr).
+Proof. exact prout_basic_exact. Qed.
